@@ -123,6 +123,40 @@ def xi(ident, anchor, **kw):
     return X(ident, IM, anchor, rules=kw.pop('rules', []) + R_IM, members=MEMBERS, **kw)
 
 
+KNOWN_MEMBERS = {'dimensions', 'width', 'height', 'get_allocator', 'allocator', 'deallocate'}
+
+
+def discover_helpers():
+    """Zero-argument const member functions of class image returning a byte pointer or a size (a refactoring that hoists an expression
+    into a private helper): each is cut like every other body and called with `self`.  Known one-line accessors are skipped."""
+    from vclib import extract as ex
+    try:
+        text = ex.read_header('boost/gil/' + IM)
+        body, _, _ = ex.find_body(text, W_IM)
+    except Exception:
+        return []
+    out = []
+    for m in re.finditer(r'\b(unsigned char\s*\*|std::size_t|std::ptrdiff_t)\s+(\w+)\(\)\s*const\s*\{', ex.strip_comments(body)):
+        name = m.group(2)
+        if name in KNOWN_MEMBERS or any(h[0] == name for h in out):
+            continue
+        out.append((name, 'addr_t' if 'char' in m.group(1) else ('size_t' if 'size_t' in m.group(1) else 'ptrdiff_t'), m.group(1)))
+    return out
+
+
+R_HELPER = [('R8.chan_alias', r'using channel_t = typename channel_type<view_t>::type;', '', False), ('R8.chan_align', r'alignof\(channel_t\)', 'CHANNEL_ALIGN', False),
+            ('R8.chan_size', r'sizeof\(channel_t\)', 'CHANNEL_SIZE', False), ('R4.ret_cast', r'return \(\s*unsigned char\s*\*\s*\)', 'return (addr_t)', False)]
+
+
+HELPERS = discover_helpers()
+if HELPERS:
+    R_IM.append(('R11.helper_calls', r'(?<![\w.>])(%s)\(\)' % '|'.join(h[0] for h in HELPERS), r'\1(self)', False))
+
+
+def helper_defs():
+    return ''.join('%s %s(const img_t* self) @@helper_%s@@\n' % (h[1], h[0], h[0]) for h in HELPERS)
+
+
 def extracts(planar):
     tag = 'true_type' if planar else 'false_type'
     ipl = (r'std::size_t is_planar_impl\(\s*std::size_t const size_in_units,\s*std::size_t const channels_in_image,\s*std::true_type\) const\s*\{' if planar else
@@ -153,7 +187,7 @@ def extracts(planar):
         xi('recreate_fill', r'void recreate\(point_t const& dims, const Pixel& p_in, std::size_t alignment = 0\)\s*\{'),
         xi('recreate_alloc', r'void recreate\(point_t const& dims, std::size_t alignment, const Alloc alloc_in\)\s*\{'),
         xi('recreate_fill_alloc', r'void recreate\(point_t const& dims, const Pixel& p_in, std::size_t alignment, const Alloc alloc_in\)\s*\{'),
-    ]
+    ] + [xi('helper_' + h[0], re.escape(h[2]).replace(r'\ ', r'\s*') + r'\s+' + h[0] + r'\(\)\s*const\s*\{', rules=R_HELPER) for h in HELPERS]
 
 
 C = r'''
@@ -262,6 +296,7 @@ void allocate_(img_t* self, point_t dimensions) {
   gview_t v; __CPROVER_assume(LAYOUT_POST(v, self->_memory)); self->_view = v; }
 #else
 size_t total_allocated_size_in_bytes(const img_t* self, point_t dimensions) @@total_allocated_size_in_bytes@@
+@@HELPER_DEFS@@
 void allocate_(img_t* self, point_t dimensions) @@allocate_@@
 void create_view(img_t* self, point_t dims) @@create_view@@
 #endif
@@ -442,6 +477,7 @@ PROBE = r'''
   P_VAL("PIXEL_STEP", (long long)memunit_step(x_iterator()));
   P_VAL("BYTE_TO_MEMUNIT", (long long)byte_to_memunit<x_iterator>::value);
   P_VAL("NUM_CHANNELS", (long long)num_channels<view_t>::value);
+  P_VAL("CHANNEL_ALIGN", (long long)alignof(channel_type<view_t>::type)); P_VAL("CHANNEL_SIZE", (long long)sizeof(channel_type<view_t>::type));
   P_VAL("IS_PLANAR", (long long)is_planar<view_t>::value);
   P_VAL("ACCESS_SPAN", (long long)ACCESS_SPAN_EXPR);
   P_VAL("BIT_ALIGNED", (int)(byte_to_memunit<x_iterator>::value == 8)); P_VAL("BITFIELD_BYTES", (long long)bitfield_bytes<x_iterator>::value);
@@ -531,7 +567,7 @@ INSTS = [
     ('rgb8', 'quick', 'rgb8_image_t', 0, 'sizeof(rgb8_pixel_t)'),
     ('rgba16', 'quick', 'rgba16_image_t', 0, 'sizeof(rgba16_pixel_t)'),
     ('rgb8_planar', 'quick', 'rgb8_planar_image_t', 1, '1'),
-    ('rgba16_planar', 'thorough', 'rgba16_planar_image_t', 1, '2'),
+    ('rgba16_planar', 'quick', 'rgba16_planar_image_t', 1, '2'),
     ('rgb32f', 'thorough', 'rgb32f_image_t', 0, 'sizeof(rgb32f_pixel_t)'),
     ('cmyk8_planar', 'thorough', 'cmyk8_planar_image_t', 1, '1'),
     # bit-aligned images: memory unit = bit, accessors load sizeof(bit field) bytes (EXTENT_END has the exact formula; the span expression is unused)
@@ -563,7 +599,7 @@ def units(prop, names, bit_aligned=True):
                                 defines=['ZSTUB_LAYOUT'] if stub else [], small=['SMALL_CEX'] if c.startswith('recreate') else (),
                                 gi_flags=['--unwind', '6'] if planar else [],
                                 inputs=('a._view.w', 'a._view.h', 'a._align_in_bytes', 'd.x', 'd.y', 'al')))
-        out.append(Unit('image.' + n, prop, C, extracts=extracts(planar), checks=checks,
+        out.append(Unit('image.' + n, prop, C.replace('@@HELPER_DEFS@@', helper_defs()), extracts=extracts(planar), checks=checks,
                         insts=[(n, tier, {'T_IMG': cxx, 'ACCESS_SPAN_EXPR': span, 'EXPECT_PLANAR': str(planar), 'IS_PLANAR_IMG': 'true' if planar else 'false'})],
                         probe_includes=['boost/gil.hpp'], probe=PROBE, probe_pre=PROBE_PRE, replay=REPLAY,
                         preconditions=['image dimensions 0 <= w,h <= 2^20, alignment <= 4096, block addresses in [4096, 2^47]'],
